@@ -193,7 +193,7 @@ def run(ck, tier, rng):
         oracle(ck, c, o)
     for c in cases[:3] + cases[-400:-397] + [c for c in cases if c[0] == "frr"][:3]:
         ck.sample(list(c), limit=12)
-    concrete_before = len(ck.violations) + len(ck.known_hits)
+    concrete_before = len(ck.violations)
     diffs = 0
     if ck.build.ok:
         model_out = run_model("C19", cases)
@@ -206,7 +206,7 @@ def run(ck, tier, rng):
                 diffs += 1
                 if diffs <= 5:
                     ck.notes.append("diff %r model=%s impl=%s" % (c, mo, io))
-        if diffs and len(ck.violations) + len(ck.known_hits) == concrete_before:
+        if diffs and len(ck.violations) == concrete_before:
             first = next((c, mo, io) for c, mo, io in zip(cases, model_out, impl_out) if mo != io and "err:Other" not in mo)
             ck.violation("correspondence", "model/PackUri.v and pptx.opc.packuri disagree on %d cases, e.g. %r: model=%s impl=%s; "
                          "the oracle found no input on which the property itself fails" % (diffs, first[0], first[1], first[2]),
